@@ -5,11 +5,11 @@ import json, os, subprocess, sys
 HERE = os.path.dirname(os.path.dirname(os.path.abspath(__file__)))
 
 ENGINES = {
-    "stategraph": ("mcx/stategraph.py", "explicit-state BFS over an operation alphabet on the real object (canonical-state dedup, oracle on every transition)"),
-    "histories": ("mcx/histories.py", "stateless exhaustive enumeration of bounded operation histories on real agents"),
-    "lattice": ("mcx/lattice.py", "exhaustive Cartesian product of small alphabets incl. scripted random draws, independent reference functions"),
-    "protocol": ("mcx/protocol.py", "explicit-state protocol model; every model trace replayed on the real AsyncPettingZooVecEnv with fault injection"),
-    "configs": ("mcx/configs.py", "exhaustive configuration lattice for whole training loops with accounting reference"),
+    "stategraph": ("mcx/stategraph.py", "explicit-state BFS over an operation alphabet on the real object (canonical-state dedup, oracle on every transition); used with mcx/fixtures/archgraph.py for C03/C04"),
+    "histories": ("mcx/fixtures/agentops.py", "stateless exhaustive enumeration of bounded operation histories on real agents (enumeration loops live in the property modules; shared ops/fingerprints in agentops.py, hpo.py)"),
+    "lattice": ("mcx/props", "exhaustive Cartesian product of small alphabets incl. scripted random draws (mcx/rand.py), independent reference functions; loops live in the property modules"),
+    "protocol": ("mcx/fixtures/procrun.py", "explicit-state protocol/reference model; every model trace replayed on the real AsyncPettingZooVecEnv in a forked trace process (scriptenv.py: turn gate + fault plans, watchdog + deadlock detector)"),
+    "configs": ("mcx/fixtures/countenv.py", "exhaustive configuration lattice for whole training loops on counting environments with an accounting reference"),
 }
 
 # id -> (engine, level, technique, level text, level note, design ref)
